@@ -260,6 +260,25 @@ def body(ctx, m):
     l3 = ctx.must("import_raises", load, m2, y2)
     y3 = ctx.must("export_raises", l3.to_pagexml_string, version=other)
     ctx.check(strip_ts(y2) == strip_ts(y3), "export_not_a_fixpoint_other_version", lambda: "%s\n---\n%s" % (y2[:3000], y3[:3000]))
+    # --- the reading order is edited on a page that has already been exported (an editor re-ordering regions; the dictionary is
+    # changed in place, the page may have been deep-copied): the next export follows the new order
+    if m["reading_order"] is not None and len(m["regions"]) >= 2:
+        import copy as _copy
+        edited = ctx.must("import_raises", load, m, x1)
+        ctx.must("export_raises", edited.to_pagexml_string, version=version)
+        if len(m["regions"]) % 2:
+            edited = _copy.deepcopy(edited)
+        ids_now = [r.id for r in edited.regions]
+        for rank, rid in enumerate(reversed(ids_now)):
+            edited.reading_order[rid] = rank
+        for k_ in [k_ for k_ in edited.reading_order if k_ not in ids_now]:
+            del edited.reading_order[k_]
+        xe = ctx.must("export_raises", edited.to_pagexml_string, version=version)
+        le = ctx.must("import_raises", load, m, xe)
+        ctx.check([r.id for r in le.regions] == ids_now[::-1] and [r.id for r in edited.regions] == ids_now[::-1], "regions_not_held_in_reading_order_after_export",
+                  lambda: "reading order reversed in place on an exported page: held %r, loaded %r, expected %r" % (
+                      [r.id for r in edited.regions], [r.id for r in le.regions], ids_now[::-1]))
+        ctx.event("reading_order_edited_after_export")
     # --- the validate_id export option prefixes every id with 'id_' and changes nothing else: same regions in the same order,
     # same lines, same geometry and text as the default export of the same page
     if m["via"] == "bytesio":
